@@ -83,6 +83,7 @@ def run(rep):
     rep.guard(c15.n1, rep, w)     # the exception-in-flight flag does not survive into the next run (a later try statement would re-raise a phantom)
     import c06
     rep.guard(c06.s1, rep, w)     # delivering an exception drops the stack down to the handler's height: the variables of the try block a closure captured are closed first (the handler and the closure keep seeing them)
+    rep.guard(x21, rep, w)
     import c09
     rep.guard(c09.f6, rep, w)     # the exception-in-flight state belongs to the fiber the exception is in: a switch that overwrites the VM-wide flag without saving it for the side that is suspended loses a propagating exception across yield / resume
     import c02
@@ -1091,3 +1092,45 @@ def x20(rep, w, prop='C08'):
         extra = sorted(x for x in filling if x != jf.path and not x.endswith('ObjFiber::new'))
         r.check(not extra, 'ObjFiber.%s is filled only by jump_finally_impl' % fld,
                 'ObjFiber.%s - the slot a return is parked in while a finally block runs - is also filled by %s: the next EndFinally resumes that as a return' % (fld, extra), jf.loc())
+
+
+def x21(rep, w, prop='C08'):
+    """a `return` inside a try block leaves through the finally blocks: wherever the compiler emits the Return instruction it has emitted the
+    JumpFinally chain first (emit_jumps_to_finally - which emits nothing outside try blocks), on every path, for every kind of function - a
+    short cut for one kind (the implicit `return self` of an initialiser) skips the finally blocks that enclose the statement."""
+    r = rep.rule('X21', 'every emission of Return is preceded by emit_jumps_to_finally on every path', floor=2)
+    JF = P + 'emit_jumps_to_finally'
+    w.require_fn(JF, prop)
+    n = 0
+    for f in sorted(w.yarel.fns.values(), key=lambda x: x.path):
+        if not f.file.endswith('compiler.rs') or f.path == JF:
+            continue
+        rets = [bi for (bi, k, o, d) in emit.emissions(w, f) if o == 'Return']
+        if not rets:
+            continue
+        through = {bi for bi, t in f.calls() if callee_name(t) == JF}
+        dom = f.dominators()
+        fresh = [bi for bi, t in f.calls() if callee_name(t) in (P + 'new_compiler', 'yarel::compiler::Compiler::new')]
+        stmts = [bi for bi, t in f.calls() if (callee_name(t) or '').rsplit('::', 1)[-1] in ('block', 'statement', 'declaration', 'try_statement')]
+        for rb in rets:
+            n += 1
+            # the body of an expression lambda: a function begun right here (a new Compiler record starts outside every try block) whose whole
+            # body is one expression - no statement, so no try block, can lie between its beginning and this Return
+            if any(fb in dom.get(rb, ()) for fb in fresh) and not any(rb in f.reachable_blocks(sb) for sb in stmts):
+                r.ok('%s / Return #%d ends a function begun here whose body is a single expression (no try block can enclose it)' % (f.path.replace(P, ''), rets.index(rb)))
+                continue
+            seen, todo, skipped = set(), [0], False
+            while todo:
+                b = todo.pop()
+                if b in seen or b in through:
+                    continue
+                seen.add(b)
+                if b == rb:
+                    skipped = True
+                    break
+                todo.extend(x for x in f.succs()[b] if x in f.normal_blocks())
+            r.check(not skipped, '%s / Return #%d follows emit_jumps_to_finally' % (f.path.replace(P, ''), rets.index(rb)),
+                    '%s emits Return on a path that has not emitted the JumpFinally chain: a return statement inside a try block skips the finally blocks around it' % f.path,
+                    f.loc(f.blocks[rb]['t'].get('sp')))
+    if n < 2:
+        raise Broken(prop, 'floor', 'X21: only %d emissions of Return found in the compiler' % n)
